@@ -143,6 +143,26 @@ def hay_from(rng, alphabet, pats, n):
     return (out[:max(0, n - len(tail))] + tail)[:max(n, len(tail))]
 
 
+def hay_utf8(rng, pats, fill, n):
+    """like hay_from for UTF-8 patterns: whole patterns, character prefixes of patterns and filler
+    characters, so the result is valid UTF-8"""
+    sp = [p.decode("utf-8") for p in pats]
+    out = ""
+    while len(out.encode("utf-8")) < n:
+        r = rng.below(4)
+        if r == 0:
+            out += rng.choice(sp)
+        elif r == 1:
+            q = rng.choice(sp)
+            out += q[:rng.range(0, len(q))]
+        else:
+            out += rng.choice(fill)
+    if rng.chance(1, 3):
+        q = rng.choice(sp)
+        out += q[:max(0, len(q) - 1)]
+    return out.encode("utf-8")
+
+
 def pick_entry_vt(rng, npats):
     vt = rng.choice(VT_NAMES)
     entry = rng.choice(["build", "values", "values"])
@@ -299,6 +319,7 @@ def g4_fill(rng, n, prefix="g4"):
             hays.append(p + bytes([0, 1, 255]) + p)
         hays.append(bytes([roots[0], 0, roots[-1], 255, 1, 0]))
         hays.append(hay_from(rng, roots[:8] + corner, pats[fan:], 24))
+        hays.append(bytes(roots[-48:]) + bytes(roots[100:140]))      # long runs of root children
         cases.append(Case(f"{prefix}_{k}", "bw", kind, nfb, "u32", "build", "ST",
                           [(p, j) for j, p in enumerate(pats)], hays, b"", suite="fill"))
         k += 1
@@ -518,19 +539,19 @@ def g8_perm(rng, n, prefix="g8"):
 # (generator, quick count, thorough count, kwargs); counts are the generator's own unit
 PLAN = {
     # property: (kinds, [(gen, quick_n, thorough_n)], forced ops or None)
-    "C01": ((0,), [("g1", 220, 3000), ("g2", 40, 800), ("g3", 4, 24), ("g5", 30, 600), ("g4", 40, 350), ("g3s", 1, 8)]),
-    "C02": ((0,), [("g1", 220, 3000), ("g2", 40, 800), ("g3", 4, 24), ("g5", 30, 600)]),
+    "C01": ((0,), [("g11", 20, 200), ("g1", 220, 3000), ("g2", 40, 800), ("g3", 4, 24), ("g5", 30, 600), ("g4", 40, 350), ("g3s", 1, 8)]),
+    "C02": ((0,), [("g11", 20, 200), ("g1", 220, 3000), ("g2", 40, 800), ("g3", 4, 24), ("g5", 30, 600)]),
     "C03": ((1,), [("g1", 220, 3000), ("g2", 40, 800), ("g3", 4, 24), ("g5", 30, 600)]),
     "C04": ((2,), [("g1", 220, 3000), ("g2", 40, 800), ("g3", 4, 24), ("g5", 30, 600), ("g9", 40, 400)]),
-    "C05": ((0,), [("g1", 220, 3000), ("g2", 40, 800), ("g3", 4, 24), ("g5", 30, 600)]),
+    "C05": ((0,), [("g11", 20, 200), ("g1", 220, 3000), ("g2", 40, 800), ("g3", 4, 24), ("g5", 30, 600)]),
     "C06": ((0, 1, 2), [("g7", 160, 2500), ("g1", 120, 1500), ("g5", 20, 300)]),
-    "C07": ((0, 1, 2), [("g1", 150, 2000), ("g2", 40, 800), ("g3", 5, 30), ("g5", 40, 800), ("g7", 60, 400), ("g4", 70, 700), ("g3s", 1, 8)]),
+    "C07": ((0, 1, 2), [("g11", 20, 200), ("g1", 150, 2000), ("g2", 40, 800), ("g3", 5, 30), ("g5", 40, 800), ("g7", 60, 400), ("g4", 70, 700), ("g3s", 1, 8)]),
     "C08": ((0, 1, 2), [("g5", 90, 2500)]),
     "C09": ((0, 1, 2), [("g7", 200, 3000), ("g1", 100, 1500), ("g5", 30, 400)]),
     "C10": ((0, 1, 2), [("g6", 620, 4000)]),
     "C11": ((0, 1, 2), [("g3", 7, 40), ("g3s", 3, 16), ("g4", 35, 350)]),
     "C12": ((0,), [("g1", 200, 3000), ("g2", 40, 800), ("g5", 40, 800)]),
-    "C13": ((0, 1, 2), [("g1", 200, 3000), ("g2", 40, 800), ("g3", 4, 24), ("g5", 30, 600), ("g10", 12, 60)]),
+    "C13": ((0, 1, 2), [("g1", 200, 3000), ("g2", 40, 800), ("g3", 4, 24), ("g5", 30, 600), ("g10", 12, 60), ("g4", 35, 350), ("g11", 30, 300)]),
     "C14": ((0, 1, 2), [("g8", 12, 150), ("g1", 60, 600)]),
     "C15": ((0, 1, 2), [("g1", 200, 3000), ("g2", 40, 800), ("g3", 5, 30), ("g5", 30, 600), ("g4", 35, 350)]),
 }
@@ -579,7 +600,35 @@ def g10_failchains(rng, n, prefix="g10"):
     return cases
 
 
-GENS = {"g4": g4_fill, "g3s": g3_sparse, "g1": g1_small, "g2": g2_bytes, "g3": g3_blocks, "g5": g5_utf8, "g6": g6_invalid,
+def g11_wide(rng, n, prefix="g11"):
+    """non-root nodes with 8..20 children (both variants): a stem, many different continuations,
+    some third-level edges; haystacks sit in one child and then read a symbol that is in the
+    alphabet but is no edge of that child"""
+    cases = []
+    for k in range(n):
+        var = "cw" if k % 2 == 0 else "bw"
+        stem = [b"x", b"xa", b"ab", "あ".encode(), "é".encode()][k % 5]
+        if var == "bw" and k % 5 >= 3:
+            stem = b"q"
+        width = 8 + (k * 3) % 13
+        conts = [bytes([0x62 + j]) for j in range(width)]
+        pats = [stem + c for c in conts]
+        if k % 3 == 0:
+            pats += [stem + conts[0] + conts[1], conts[2] + conts[3]]
+        if k % 4 == 1:
+            pats += [conts[1]] + ([stem[:1]] if stem[0] < 128 else [])
+        pats = uniq(pats)
+        kind = pick_kind(rng)
+        s1 = stem[:1] if stem[0] < 128 else stem
+        hays = [stem + conts[0] + s1, stem + conts[1] + conts[2] + stem + conts[3],
+                b"the " + stem + conts[4] + b" " + stem + conts[0] + conts[1] + stem,
+                hay_utf8(rng, pats, "xabq" + "".join(chr(c[0]) for c in conts), 30)]
+        cases.append(Case(f"{prefix}_{k}", var, kind, 16, "u32", "build", "ST",
+                          [(p, j) for j, p in enumerate(pats)], hays, b"", suite="wide"))
+    return cases
+
+
+GENS = {"g11": g11_wide, "g4": g4_fill, "g3s": g3_sparse, "g1": g1_small, "g2": g2_bytes, "g3": g3_blocks, "g5": g5_utf8, "g6": g6_invalid,
         "g7": g7_values, "g8": g8_perm, "g9": g9_orders, "g10": g10_failchains}
 
 
